@@ -61,3 +61,19 @@ func VerifC06_CircuitIDKey() {
 }
 
 func init() { vHarness["VerifC06_CircuitIDKey"] = VerifC06_CircuitIDKey }
+
+// circuit_id_map keys (HashCircuitID): two circuit-ids of equal length that differ in their last byte never share
+// a key (FNV-1a: every step is a bijection of the running hash). A key derivation
+// that ignores part of the identifier makes one key stand for two subscribers.
+func VerifC20_CircuitIDHash() {
+	n := []int{1, 31, 32, 33, 63, 64}[ndPick("length", 6)]
+	a := ndBytes("cid", 64)[:n]
+	b := append([]byte(nil), a...)
+	pos := n - 1 // (a difference further left has to survive n-pos multiplications: beyond the solver's reach; the last byte is where a length cut-off shows)
+	b[pos] = ndU8("other")
+	vAssume(b[pos] != a[pos])
+	vAssert(HashCircuitID(a) != HashCircuitID(b), "two circuit-ids that differ in one byte derive the same circuit_id_map key")
+	vReach("end")
+}
+
+func init() { vHarness["VerifC20_CircuitIDHash"] = VerifC20_CircuitIDHash }
